@@ -286,23 +286,29 @@ def to_xir(prog: Program, **kwargs) -> xir.Program:
             params = []
             for i, a in enumerate(cmd.op.p):
                 if sfpar.par_is_symbolic(a):
-                    # try to evaluate symbolic parameter
-                    try:
-                        a = sfpar.par_evaluate(a)
-                    except sfpar.ParameterError:
-                        # if a tdm param
-                        if a in getattr(prog, "loop_vars", ()):
-                            a = a.name
-                        # if a pure symbol (free parameter), convert to string
-                        elif a.is_symbol:
-                            a = a.name
-                        # else, assume it's a symbolic function and replace all free parameters
-                        # with string representations
-                        else:
-                            symbolic_func = a.copy()
-                            for s in symbolic_func.free_symbols:
-                                symbolic_func = symbolic_func.subs(s, s.name)
-                            a = str(symbolic_func)
+                    # only evaluate expressions without symbols (constants); a parameter that
+                    # still contains symbols is written symbolically, never by the value it
+                    # happens to have after a run or a ``bind_params`` call
+                    if not getattr(a, "free_symbols", None):
+                        try:
+                            a = sfpar.par_evaluate(a)
+                        except sfpar.ParameterError:
+                            pass
+
+                if sfpar.par_is_symbolic(a):
+                    # if a tdm param
+                    if a in getattr(prog, "loop_vars", ()):
+                        a = a.name
+                    # if a pure symbol (free parameter), convert to string
+                    elif a.is_symbol:
+                        a = a.name
+                    # else, assume it's a symbolic function and replace all free parameters
+                    # with string representations
+                    else:
+                        symbolic_func = a.copy()
+                        for s in symbolic_func.free_symbols:
+                            symbolic_func = symbolic_func.subs(s, s.name)
+                        a = str(symbolic_func)
 
                 elif isinstance(a, str):
                     pass
